@@ -125,7 +125,7 @@ func ctorRule(w *World, r *Report, rule string) {
 			})
 		}
 	}
-	r.floor(rule, "composite literals of MalFunc/Func/Env", n, 6)
+	r.floor(rule, "composite literals of MalFunc/Func/Env", n, 4)
 }
 
 func enclosingFuncName(file *ast.File, p token.Pos) string {
@@ -196,7 +196,7 @@ func checkC04(w *World, r *Report) {
 			r.bad("C04.barrier", f, "Func.Fn value", f.Pos(), "neither a barrier nor in the audited closure")
 		}
 	}
-	r.floor("C04.barrier", "functions usable as Func.Fn (6 adapters + 2 eval builtins)", nb, 8)
+	r.floor("C04.barrier", "functions usable as Func.Fn (6 adapters + at least one raw builtin)", nb, 7)
 
 	// C04.recover-total: handlers of all barriers seen + malRecover
 	handlers := map[*ssa.Function]bool{}
@@ -222,7 +222,7 @@ func checkC04(w *World, r *Report) {
 	r.floor("C04.recover-total", "recover handlers (_recover, malRecover)", len(handlers), 2)
 
 	ctorRule(w, r, "C04.ctor")
-	r.floor("C04.site", "may-panic sites in the evaluator closure", r.count("C04.site"), 60)
+	r.floor("C04.site", "may-panic sites in the evaluator closure", r.count("C04.site"), 50)
 	r.Notes = append(r.Notes, "closure: "+closureNames(w, a.closure), "barriers: "+barrierNames(w, a))
 	r.Assumptions = append(r.Assumptions,
 		"context and environment arguments given to EVAL are non-nil; hand-built MalFunc/Func values with nil function fields, cyclic values and host stack exhaustion are outside the property's quantifier",
@@ -292,7 +292,7 @@ func checkC05(w *World, r *Report) {
 	a.run()
 	a.unusedExemptions()
 	progressRule(w, r, e)
-	r.floor("C05.site", "may-panic sites in the reader/printer closure", r.count("C05.site"), 25)
+	r.floor("C05.site", "may-panic sites in the reader/printer closure", r.count("C05.site"), 20)
 	r.Notes = append(r.Notes, "closure: "+closureNames(w, a.closure), "barriers: "+barrierNames(w, a))
 	var nilParams []string
 	for p := range a.mayNil {
